@@ -5,6 +5,7 @@
 #[allow(dead_code, unused_imports, clippy::all)]
 mod sync;
 mod conf;
+mod traits;
 
 use common::*;
 use ilv::{Budget, Config, End, Model};
@@ -30,6 +31,18 @@ impl TrackedCell {
     }
 }
 
+// formatted only by `impl Debug for Mutex`, i.e. while that impl holds whatever it takes to be a guard: an exclusive
+// critical section of the formatting thread
+impl std::fmt::Debug for TrackedCell {
+    fn fmt(&self, f: &mut std::fmt::Formatter<'_>) -> std::fmt::Result {
+        let tid = ilv::current_tid();
+        cs_enter(tid, true);
+        let v = self.get();
+        cs_exit(tid);
+        write!(f, "{v}")
+    }
+}
+
 #[derive(Clone, Copy, PartialEq, Eq, Debug, Hash)]
 enum Op {
     L,  // mutex lock
@@ -41,6 +54,7 @@ enum Op {
     LH, // lock, hold until every other thread is parked, unlock
     RH, // read, hold likewise
     WH, // write, hold likewise
+    D,  // format the Mutex with {:?} (an observer: takes the lock with try_lock if it can, prints <locked> otherwise)
 }
 impl Op {
     fn name(self) -> &'static str {
@@ -54,6 +68,7 @@ impl Op {
             Op::LH => "H",
             Op::RH => "h",
             Op::WH => "X",
+            Op::D => "D",
         }
     }
     fn from_char(c: char) -> Op {
@@ -67,14 +82,15 @@ impl Op {
             'H' => Op::LH,
             'h' => Op::RH,
             'X' => Op::WH,
+            'D' => Op::D,
             _ => panic!("bad op {c}"),
         }
     }
     fn is_try(self) -> bool {
-        matches!(self, Op::T | Op::TR | Op::TW)
+        matches!(self, Op::T | Op::TR | Op::TW | Op::D)
     }
     fn is_writer(self) -> bool {
-        matches!(self, Op::L | Op::T | Op::W | Op::TW | Op::LH | Op::WH)
+        matches!(self, Op::L | Op::T | Op::W | Op::TW | Op::LH | Op::WH | Op::D)
     }
 }
 
@@ -210,6 +226,14 @@ impl Model for LockModel {
                     Op::LH => body!(Some((*m).lock()), true),
                     Op::RH => body!(Some((*rw).read()), false),
                     Op::WH => body!(Some((*rw).write()), true),
+                    Op::D => {
+                        let text = format!("{:?}", *m);
+                        let points = ilv::end_call();
+                        if points > self.try_point_limit {
+                            ilv::flag_violation("try-call-spins", format!("formatting the Mutex took {points} scheduling points"));
+                        }
+                        !text.contains("<locked>")
+                    }
                 }
             };
             let end = ilv::current_step();
@@ -229,6 +253,7 @@ impl Model for LockModel {
             Some(Op::LH) => "lock",
             Some(Op::RH) => "read",
             Some(Op::WH) => "write",
+            Some(Op::D) => "debug-fmt",
             None => "?",
         };
         format!("{n}:panic")
@@ -360,6 +385,12 @@ fn classes(id: &str, thorough: bool) -> Vec<Class> {
         out
     };
     let w3 = words(alpha, 3);
+    // programs over the alphabet extended with the observer op, keeping those in which it occurs
+    let with_observer = |n: usize, len: usize| -> Vec<Vec<Vec<Op>>> {
+        multisets(&words(&[Op::L, Op::T, Op::D], len), n).into_iter().filter(|p| p.iter().flatten().any(|o| *o == Op::D)).collect()
+    };
+    // holder, formatter, then a thread that tries twice (the formatter's effect on a later acquisition)
+    let observer_long = || -> Vec<Vec<Vec<Op>>> { vec![vec![vec![Op::L], vec![Op::D], vec![Op::T, Op::L]], vec![vec![Op::L, Op::L], vec![Op::D, Op::D], vec![Op::L]]] };
     if id == "C01" {
         if !thorough {
             v.push(Class { desc: "2 threads x <=2 ops, stale reads".into(), progs: multisets(&w2, 2), budget: b(6, 2, 1) });
@@ -370,6 +401,7 @@ fn classes(id: &str, thorough: bool) -> Vec<Class> {
             // one call woken many times without winning: counters/tables indexed by the number of wake-ups
             v.push(Class { desc: "2 threads x 1 op, up to 14 spurious futex returns".into(), progs: multisets(&w1, 2), budget: b(2, 14, 0) });
             v.push(Class { desc: "3 threads x 1 op, up to 7 spurious futex returns".into(), progs: multisets(&w1, 3), budget: b(1, 7, 0) });
+            v.push(Class { desc: "observer: 2-3 threads x <=2 ops over {lock, try_lock, format the Mutex with {:?}}, at least one formatter".into(), progs: with_observer(2, 2).into_iter().chain(with_observer(3, 1)).chain(observer_long()).collect(), budget: b(3, 1, 0) });
         } else {
             v.push(Class { desc: "2 threads x <=3 ops, stale reads".into(), progs: multisets(&w3, 2), budget: b(6, 2, 2) });
             v.push(Class { desc: "3 threads x <=2 ops, stale reads".into(), progs: multisets(&w2, 3), budget: b(3, 2, 1) });
@@ -380,6 +412,7 @@ fn classes(id: &str, thorough: bool) -> Vec<Class> {
             v.push(Class { desc: "5 threads x 1 op".into(), progs: multisets(&w1, 5), budget: b(2, 1, 0) });
             v.push(Class { desc: "2 threads x 1 op, up to 20 spurious futex returns".into(), progs: multisets(&w1, 2), budget: b(2, 20, 0) });
             v.push(Class { desc: "3 threads x 1 op, up to 10 spurious futex returns".into(), progs: multisets(&w1, 3), budget: b(1, 10, 0) });
+            v.push(Class { desc: "observer: 2-3 threads x <=2 ops, 4 threads x 1 op over {lock, try_lock, format the Mutex with {:?}}, at least one formatter".into(), progs: with_observer(2, 3).into_iter().chain(with_observer(3, 2)).chain(with_observer(4, 1)).collect(), budget: b(3, 1, 1) });
         }
     } else if !thorough {
         v.push(Class { desc: "2 threads x <=2 ops, stale reads".into(), progs: multisets(&w2, 2), budget: b(4, 1, 1) });
@@ -541,6 +574,8 @@ fn main() {
         "c01" => run_lock("C01", &args),
         "c02" => run_lock("C02", &args),
         "futexconf" => conf::run(&args),
+        "traits-c01" => traits::run("C01", &args),
+        "traits-c02" => traits::run("C02", &args),
         _ => panic!("unknown phase"),
     };
     r.write(&args.out);
